@@ -448,6 +448,7 @@ def run(ctx: Ctx, repo: Repo, tier: str) -> None:
     ctx.trust("repr() of typing objects as implemented by CPython's typing module (typing.X[...] with module-qualified class names, builtins unqualified, Optional for Union[X, None])",
               "Python import semantics: `from m import n` provides exactly `n`; a dotted name needs its root to be provided",
               "Python's grammar as implemented by ast.parse")
-    rule_handlers(ctx, repo)
-    rule_pipeline(ctx, repo)
-    rule_import_shape(ctx, repo)
+    ctx.attempt(rule_handlers, ctx, repo)
+    ctx.attempt(rule_pipeline, ctx, repo)
+    ctx.attempt(rule_import_shape, ctx, repo)
+    ctx.settle()
